@@ -40,7 +40,7 @@ type c08Req struct {
 }
 
 var (
-	c08Methods = []string{"GET", "POST", "PUT", "DELETE", "PATCH", "HEAD", "OPTIONS"}
+	c08Methods = []string{"GET", "POST", "PUT", "DELETE", "PATCH", "HEAD", "OPTIONS", "PROPFIND", "PURGE"}
 	c08Paths   = []string{"/", "/a/b", "/a%2Fb", "/a%20b", "/%E2%9C%93", "//double"}
 	c08Queries = []string{"", "a=b", "a=1&a=2", "q=%26%3D", "empty=", "+", "tags=red;green&page=2", "bad=%zz&ok=1"}
 	c08Hdrs    = []string{"none", "multi", "authorization", "cookie", "host-port", "forwarded"}
@@ -204,8 +204,9 @@ func newC08World(timeout time.Duration) *c08World {
 	if err != nil {
 		evid.Fatal("listen: %v", err)
 	}
-	rp := reverseproxy.NewReverseProxy(agentconfig.ListenerConfig{EndpointID: "e1", Addr: svc.Addr().String(), Timeout: timeout}, log.NewNopLogger())
-	go func() { _ = http.Serve(front, rp) }()
+	// the agent's own HTTP server (router, middleware) around its reverse proxy
+	rp := reverseproxy.NewServer(agentconfig.ListenerConfig{EndpointID: "e1", Addr: svc.Addr().String(), Timeout: timeout, AccessLog: agentAccessLogOff()}, reverseproxy.NewMetrics("verif_c08"), log.NewNopLogger())
+	go func() { _ = rp.Serve(front) }()
 	w.agentAddr = front.Addr().String()
 	w.closers = append(w.closers, svc, front)
 	if !e4.WaitFor(20*time.Second, func() bool {
@@ -397,6 +398,12 @@ func c08Cases(full bool) []c08Req {
 		}
 	}
 	return out
+}
+
+func agentAccessLogOff() (c log.AccessLogConfig) {
+	c.Disable = true
+	c.Level = "info"
+	return c
 }
 
 // ---------------------------------------------------------------------------
